@@ -242,7 +242,12 @@ def acoll_fn(kinds):
         got = list(coll.iter_children())
         if len(got) != len(kinds):
             return False
-        conds = [coll.start == MIN([m[1] for m in members]), coll.end == MAX([m[2] for m in members]),
+        if not genes and not fcs:
+            # bounds are inferred from the children only when the collection is not empty in the sense of len() (genes + feature collections)
+            bounds = [coll.start is None, coll.end is None]
+        else:
+            bounds = [coll.start == MIN([m[1] for m in members]), coll.end == MAX([m[2] for m in members])]
+        conds = bounds + [
                  len(coll) == len(genes) + len(fcs), coll.is_empty == (len(genes) + len(fcs) == 0)]  # is_empty is defined through len(): variant collections do not count
         for a, b in zip(got, got[1:]):
             conds.append(a.start <= b.start)
